@@ -10,7 +10,7 @@ from props.C15 import Machine
 
 REQUIRED_THEOREMS = ['Usid.C03.batches_partition', 'Usid.C03.batches_disjoint_ordered', 'Usid.C03.exactly_once',
                      'Usid.C03.final_state', 'Usid.C03.all_complete', 'Usid.C03.batch_irrelevant',
-                     'Usid.C03.cores_irrelevant']
+                     'Usid.C03.cores_irrelevant', 'Usid.C03.pending_at_start', 'Usid.C03.legacy_resume']
 RULE = ('[also: prior groups in the LEGACY form - no status dataset, only the last_pixel attribute] [also: positional / keyword arguments handed through compute() to the map function, verbose=True, machines with 1 / 2 / 4 / 8 logical cores and negative or excessive core requests, multi-worker batches shorter than the pending list, a second compute() on the finished object; serial call order and the worker count observed] random (N, M, completion mask incl. N up to 1200 with < 0.5 % pending, batch limit, cores, lazy, same-file/separate target); real compute() of a '
         'Process subclass whose map function logs every call through an O_APPEND file; non-trivial = a pending '
         'position exists and (several batches or non-contiguous mask or multi-core)')
@@ -177,6 +177,11 @@ def nontrivial(inp, obs):
 
 
 def model_requests(inp):
+    if inp.get('legacy'):
+        # the model derives the initial marks from the legacy attribute itself (initialStatus)
+        return [{'op': 'proc.run', 'n': inp['n'], 'last_pixel': sum(inp['mask']), 'batch': inp['batch']}]
+    if inp['fresh']:
+        return [{'op': 'proc.run', 'n': inp['n'], 'batch': inp['batch']}]
     return [{'op': 'proc.run', 'status': inp['mask'], 'batch': inp['batch']}]
 
 
